@@ -218,7 +218,20 @@ def _hp_mutation(ck: Check, repo: Repo) -> None:
                 multi[f"{cname}.{lr}"] = opts
     ck.note("lr_names_shared_by_several_optimizers", multi)
     reinits = [c for c in calls_in(fn.node) if call_name(c) == "self.reinit_opt"]
-    ck.ob("C06.4", fn, reinits[0] if reinits else fn.node, bool(reinits), "a mutated learning rate leads to optimizer re-creation",
+    # alternative mechanism: the new value is written into the parameter groups in place — acceptable only when every group is written
+    all_groups, projected = [], []
+    for a in walk_no_nested(fn.node):
+        if isinstance(a, ast.Assign) and isinstance(a.targets[0], ast.Subscript) and const_value(a.targets[0].slice) == "lr":
+            base = a.targets[0].value
+            if isinstance(base, ast.Subscript) and isinstance(base.value, ast.Attribute) and base.value.attr == "param_groups":
+                projected.append(a)
+            elif isinstance(base, ast.Name) and any(isinstance(l, ast.For) and isinstance(l.target, ast.Name) and l.target.id == base.id and isinstance(l.iter, ast.Attribute)
+                                                    and l.iter.attr == "param_groups" and any(x is a for x in ast.walk(l)) for l in ast.walk(fn.node)):
+                all_groups.append(a)
+    ck.ob("C06.4", fn, (reinits or all_groups or projected or [fn.node])[0], (bool(reinits) or bool(all_groups)) and not projected,
+          "a mutated learning rate reaches the optimizers: they are re-created from the agent's new value, or every parameter group is updated in place",
+          detail=(f"`{short(projected[0], 80)}` writes the new value into one parameter group only: an optimizer over several networks (PPO: actor and critic groups) "
+                  "keeps stepping its other groups with the old learning rate") if projected else "neither reinit_opt(...) nor an in-place update of the parameter groups found",
           construct="reinit_opt call in rl_hyperparam_mutation")
     for c in reinits:
         n = cfg.node_of(c)
@@ -361,6 +374,8 @@ def _reinit_opt(ck: Check, repo: Repo) -> None:
 _MF = "agilerl/hpo/mutation.py"
 _RF = "agilerl/algorithms/core/registry.py"
 VARIANTS = [
+    ("lr-in-place-first-group-only", _MF, "                    # Reinitialise every optimizer that uses the new learning rate\n                    self.reinit_opt(individual, optimizer=opt_config)", "                    opt = getattr(individual, opt_config.name)\n                    opt.optimizer.param_groups[0][\"lr\"] = new_value\n                    opt.lr = new_value", "fire", "C06.4"),
+    ("lr-in-place-all-groups-ok", _MF, "                    # Reinitialise every optimizer that uses the new learning rate\n                    self.reinit_opt(individual, optimizer=opt_config)", "                    opt = getattr(individual, opt_config.name)\n                    for torch_opt in (opt.optimizer if isinstance(opt.optimizer, list) else [opt.optimizer]):\n                        for group in torch_opt.param_groups:\n                            group[\"lr\"] = new_value\n                    opt.lr = new_value", "silent", None),
     ("no-clip", _RF, "        new_value = min(max(new_value, self.min), self.max)\n", "", "fire", "C06.1"),
     ("clip-swapped", _RF, "new_value = min(max(new_value, self.min), self.max)", "new_value = min(max(new_value, self.max), self.min)", "fire", "C06.1"),
     ("no-cast", _RF, "self.value = self.dtype(new_value)", "self.value = new_value", "fire", "C06.1"),
